@@ -154,13 +154,20 @@ def write_pickle_xsec(path, name, wn, T, P_pa, xsec_cm2):
         pickle.dump(d, f)
 
 
-def write_pickle_ktable(path, name, wn, T, P_pa, k_cm2, weights, kdtype=float):
-    """kdtype: the type the coefficients are stored with in the file (files converted from other formats hold float32)"""
+def write_pickle_ktable(path, name, wn, T, P_pa, k_cm2, weights, kdtype=float, gorder='asc'):
+    """kdtype: the type the coefficients are stored with in the file (files converted from other formats hold float32).
+    gorder='desc': the quadrature points are listed from the last abscissa to the first - abscissae (`samples`), weights
+    and the g-axis of the coefficients all in that same order, i.e. the same physical table."""
     ng = len(weights)
+    samples = np.cumsum(weights) - np.array(weights, float) / 2.0
+    if gorder == 'desc':
+        weights = np.array(weights, float)[::-1]
+        k_cm2 = np.array(k_cm2)[..., ::-1]
+        samples = samples[::-1]
     d = {'name': name, 'bin_centers': np.array(wn, float), 'bin_edges': np.array(wn, float),
          'ngauss': ng, 't': np.array(T, float), 'p': np.array(P_pa, float) / 1e5,
          'kcoeff': np.array(k_cm2, dtype=kdtype), 'weights': np.array(weights, float),
-         'samples': np.cumsum(weights), 'resolution': 1.0, 'method': 'verif'}
+         'samples': np.array(samples, float), 'resolution': 1.0, 'method': 'verif'}
     with open(path, 'wb') as f:
         pickle.dump(d, f)
 
